@@ -102,12 +102,21 @@ def gen_sel(rng):
     return s
 
 
+# comment texts over a rich alphabet (leading / trailing `*`, `#`, `/`, `!`, white space); no `#{` (the first pass is SCSS)
+CTEXT = [" c x ", " x *", "*", "*** banner ***", "* doc x", " a/x ", "/ x", " #42: x ", " x! ", "  x  ", "\tx\t", " x *\n   * b *",
+         " ! x", "**", " x #", " * /x", "! keep x *", "!*", "!", " é x ", "****", " x ***"]
+
+
+def gen_comment(rng):
+    return "/*" + rng.choice(CTEXT).replace("x", rng.choice(IDENT)) + "*/"
+
+
 def gen_rule(rng, ind=""):
     sels = ", ".join(gen_sel(rng) for _ in range(rng.choice([1, 1, 2])))
     body = ""
     for _ in range(rng.randint(1, 4)):
         if rng.random() < 0.12:
-            body += f"{ind}  /* c {rng.choice(IDENT)} */\n"
+            body += f"{ind}  {gen_comment(rng)}\n"
         else:
             body += f"{ind}  {rng.choice(['color', 'margin', 'x', 'font-family', '-w-y'])}: {gen_value(rng)};\n"
     return f"{ind}{sels} {{\n{body}{ind}}}\n"
@@ -120,7 +129,7 @@ def gen_sheet(rng):
         if k < 0.55:
             out += gen_rule(rng)
         elif k < 0.65:
-            out += f"/* top {rng.choice(IDENT)} */\n"
+            out += gen_comment(rng) + "\n"
         elif k < 0.78:
             q = rng.choice(["print", "screen and (min-width: 10px)", "(max-width: 100px)", "not print", "screen, print"])
             out += f"@media {q} {{\n" + "".join(gen_rule(rng, "  ") for _ in range(rng.randint(1, 2))) + "}\n"
@@ -153,6 +162,7 @@ def gen_cases(ctx, tier):
              {"kind": "sheet", "src": ".nbsp{grid-area:main\\a0 area;animation-name:fade\\a0 in, plain}@keyframes k{from{counter-reset:x\\a0 y 1}}"},
              {"kind": "sheet", "src": "a{b:x\\9f y x\\80 y \\a0 z x\\ff y}"},
              {"kind": "sheet", "src": "a{b:x\\a1 y}"},
+             {"kind": "sheet", "src": "/* plain */\n/** doc, stars at the start */\na{color:red}\n@media screen{.box{/* section end **/width:10px}}\n/***/\n/**** banner ****/"},
              {"kind": "probe", "raw": "a\\\"b'c", "dq": True, "src": 'a{b:"a\\"b\'c"}'},
              {"kind": "sheet", "src": 'a{b:"a\\"b\'c" "t\\\\"}'}, {"kind": "sheet", "src": 'a{b:"\ue000a" "\ue000 x" "\ue000z"}'}]
     n = 700 if tier == "quick" else 7000
